@@ -152,7 +152,7 @@ def run_shard(sh, ctx):
 		empty_i = subsets.index(frozenset())
 		for cname, cont in (('list', list(arrs[w0])), ('SignatureList', SignatureList(list(arrs[w0]), None, dtype=np.dtype(w0))), ('SignatureArray', SignatureArray(arrs[w0], None, dtype=np.dtype(w0))),
 		                    ('mixed-width list', list(mixed)), ('mixed-width SignatureList', SignatureList(list(mixed), None)),
-		                    ('one-reference SignatureArrays', None), ('chunks of two', None), ('matrix into a Fortran-ordered out', None), ('rows into columns of a matrix', None), ('pairwise, empty signatures last', None), ('pairwise on a list, empty signatures first', None)):
+		                    ('one-reference SignatureArrays', None), ('chunks of two', None), ('matrix with rotated and shuffled ref_indices', None), ('matrix into a Fortran-ordered out', None), ('rows into columns of a matrix', None), ('pairwise, empty signatures last', None), ('pairwise on a list, empty signatures first', None)):
 			Tb = np.empty((n, n), dtype='f8')
 			if cname == 'one-reference SignatureArrays':
 				# every reference alone in its own concatenated array (a database / chunk that holds a single genome)
@@ -171,6 +171,16 @@ def run_shard(sh, ctx):
 				for i in range(n):
 					gm.jaccarddist_array(arrs[wl][i], sa, out=Mx[:, i])      # a strided view as out=
 				Tb[:] = Mx.T
+			elif cname == 'matrix with rotated and shuffled ref_indices':
+				sa = SignatureArray(arrs[w0], None, dtype=np.dtype(w0))
+				qa_ = SignatureArray(arrs[wl], None, dtype=np.dtype(wl))
+				rr_ = __import__('random').Random(n)
+				for sel, chunk in ((list(range(1, n)) + [0], 3), (rr_.sample(range(n), n), None), (rr_.sample(range(n), n), 4)):
+					Mx = gm.jaccarddist_matrix(qa_, sa, ref_indices=sel, chunksize=chunk)
+					for pos, j in enumerate(sel):
+						Tb[:, j] = Mx[:, pos]
+					if not np.array_equal(Tb, base):
+						break
 			elif cname == 'chunks of two':
 				# references ordered so that the empty set and its copy form a chunk of their own
 				order = [empty_i, empty_i] + [j for j in range(n) if j != empty_i]
@@ -301,7 +311,7 @@ def run_shard(sh, ctx):
 
 def finalize(merged, tier, seed, inconclusive):
 	c = merged['counters']
-	for n in ['triples_checked', 'add_common_element_checks', 'width_invariance_checks', 'class:union', 'class:near', 'width_combo:u2/u8', 'width_combo:u8/u2', 'mixed_width_pairs_with_unrepresentable_values', 'bulk_tables:list', 'bulk_tables:SignatureArray', 'bulk_tables:one-reference SignatureArrays', 'bulk_tables:chunks of two', 'bulk_tables:pairwise, empty signatures last']:
+	for n in ['triples_checked', 'add_common_element_checks', 'width_invariance_checks', 'class:union', 'class:near', 'width_combo:u2/u8', 'width_combo:u8/u2', 'mixed_width_pairs_with_unrepresentable_values', 'bulk_tables:list', 'bulk_tables:SignatureArray', 'bulk_tables:one-reference SignatureArrays', 'bulk_tables:chunks of two', 'bulk_tables:matrix with rotated and shuffled ref_indices', 'bulk_tables:pairwise, empty signatures last']:
 		if c.get(n, 0) == 0:
 			inconclusive.append(f'class never observed: {n}')
 	merged['notes'].setdefault('sanitizer_stage', {})
